@@ -3,6 +3,7 @@
 cd "$(dirname "$0")/.."
 if [ -n "$(git -C /repo status --porcelain)" ]; then echo "/repo is dirty"; exit 1; fi
 rc=0
+python3 "$(dirname "$0")/gen_fingerprints.py" >/dev/null
 for id in $(python3 -c "import json;print(' '.join(c['property_id'] for c in json.load(open('MANIFEST.json'))['checks']))"); do
   ./check $id --tier ${1:-quick} | tail -1 || rc=1
 done
